@@ -17,6 +17,7 @@
 // lie in (w - 1 - d, w + d] with d = 1e-4*max covering the float/double rounding before the truncation.
 #include "c17.hpp"
 #include <ImathColorAlgo.h>
+#include <atomic>
 #include <limits>
 
 using namespace vf;
@@ -210,6 +211,137 @@ template <class T> void int_color (const std::string& tn, bool with_c4)
     R ().stage_done ("rgb and hsv over floor(k*max/8)^3, k = 0..8: model value scaled by max and truncated" + std::string (with_c4 ? "; Color4 overload with 256-cycle alpha" : ""));
 }
 
+// ---- integer element types: Color4 overloads against the Vec3 overloads, alpha pass-through ------------
+// Statement: "their Vec3 and Color4 overloads agree and pass alpha through, integer element types scale by their
+// maximum". Nothing here depends on a model: the two overloads are given the same three channels and must return the
+// same three channels (the type is integral, so "agree" is equality), and the fourth channel must come back
+// unchanged, for EVERY value the element type can hold (8- and 16-bit types: all of them; int: a boundary alphabet).
+template <class T> struct AlphaSet
+{
+    static std::vector<long long> get ()
+    {
+        std::vector<long long> v;
+        for (long long a = (long long) std::numeric_limits<T>::min (); a <= (long long) std::numeric_limits<T>::max (); ++a) v.push_back (a);
+        return v;
+    }
+};
+template <> struct AlphaSet<int>
+{
+    static std::vector<long long> get ()
+    {
+        std::vector<long long> v = {0, 1, 2, 3, 127, 128, 255, 256, 32767, 32768, 65535, 65536, 16777215, 16777216, 16777217, 1073741823, 1073741824,
+                                    2147483645, 2147483646, 2147483647, -1, -2, -255, -65536, -16777217, -2147483647, -2147483647 - 1};
+        return v;
+    }
+};
+
+template <class T> void int_color4 (const std::string& tn)
+{
+    if (!R ().stage ("color4-" + tn)) return;
+    typedef IM::Vec3<T>   V3;
+    typedef IM::Color4<T> C4;
+    const LD  MX = (LD) std::numeric_limits<T>::max ();
+    long long n = 0, tr = 0, c_alpha = 0, c_neg = 0, c_grid = 0;
+    auto      s3 = [] (const V3& v) { return fmt ((long long) v.x) + " " + fmt ((long long) v.y) + " " + fmt ((long long) v.z); };
+    auto      s4 = [] (const C4& c) { return fmt ((long long) c.r) + " " + fmt ((long long) c.g) + " " + fmt ((long long) c.b); };
+    // (a) every alpha value, three fixed colours (a saturated one, a grey one, black)
+    const std::vector<long long> AL = AlphaSet<T>::get ();
+    const T                      cols[3][3] = {{(T) (MX / 5), (T) (MX / 2), (T) (MX - 1)}, {(T) (MX / 3), (T) (MX / 3), (T) (MX / 3)}, {T (0), T (0), T (0)}};
+    for (long long a : AL)
+        for (int k = 0; k < 3; ++k)
+        {
+            T  al = (T) a;
+            C4 in4 (cols[k][0], cols[k][1], cols[k][2], al);
+            C4 h4 = IM::rgb2hsv (in4), r4 = IM::hsv2rgb (in4);
+            ++n; tr += 2; ++c_alpha;
+            if (a < 0) ++c_neg;
+            if (h4.a != al) R ().fail ("rgb2hsv<Color4<" + tn + ">>.alpha", tn + " " + s4 (in4) + " alpha " + fmt (a), fmt (a), fmt ((long long) h4.a));
+            if (r4.a != al) R ().fail ("hsv2rgb<Color4<" + tn + ">>.alpha", tn + " " + s4 (in4) + " alpha " + fmt (a), fmt (a), fmt ((long long) r4.a));
+        }
+    // (b) the 9^3 grid floor(k*max/8): Color4 == Vec3 channel by channel, alpha cycling through the alphabet
+    size_t ai = 0;
+    for (int i = 0; i < 9; ++i)
+        for (int j = 0; j < 9; ++j)
+            for (int k = 0; k < 9; ++k)
+            {
+                T  a = (T) floorl (i * MX / 8), b = (T) floorl (j * MX / 8), c = (T) floorl (k * MX / 8), al = (T) AL[(ai += 7919) % AL.size ()];
+                V3 v (a, b, c);
+                C4 q (a, b, c, al);
+                V3 hv = IM::rgb2hsv (v), rv = IM::hsv2rgb (v);
+                C4 hc = IM::rgb2hsv (q), rc = IM::hsv2rgb (q);
+                ++n; tr += 4; ++c_grid;
+                std::string in = tn + " " + s3 (v) + " alpha " + fmt ((long long) al);
+                if (hc.r != hv.x || hc.g != hv.y || hc.b != hv.z) R ().fail ("rgb2hsv<Color4<" + tn + ">>.vs-Vec3", in, s3 (hv), s4 (hc));
+                if (rc.r != rv.x || rc.g != rv.y || rc.b != rv.z) R ().fail ("hsv2rgb<Color4<" + tn + ">>.vs-Vec3", in, s3 (rv), s4 (rc));
+                if (hc.a != al) R ().fail ("rgb2hsv<Color4<" + tn + ">>.alpha", in, fmt ((long long) al), fmt ((long long) hc.a));
+                if (rc.a != al) R ().fail ("hsv2rgb<Color4<" + tn + ">>.alpha", in, fmt ((long long) al), fmt ((long long) rc.a));
+            }
+    R ().cls ("color4." + tn + ".alpha-values", c_alpha);
+    if (std::numeric_limits<T>::is_signed) R ().cls ("color4." + tn + ".negative-alpha", c_neg);
+    R ().cls ("color4." + tn + ".grid-triples-vs-Vec3", c_grid);
+    R ().add ("states", n); R ().add ("evaluations", n); R ().add ("transitions", tr);
+    R ().stage_done (std::to_string (AL.size ()) + " alpha values x 3 colours (alpha returned unchanged) + floor(k*max/8)^3 grid: Color4 overloads == Vec3 overloads, both directions");
+}
+
+// ---- ALL 2^24 unsigned-char triples --------------------------------------------------------------------
+// (1) Vec3<unsigned char> against the long-double model scaled by 255 and truncated (the same oracle as the 9^3 grid:
+//     covers hues that are not multiples of 1/8, the neighbourhood of every sector boundary, every saturation);
+// (2) Color4<unsigned char> == Vec3<unsigned char> channel by channel, alpha (a function of the triple that takes all
+//     256 values) returned unchanged.
+void uchar_all ()
+{
+    if (!R ().stage ("color-uchar-all")) return;
+    typedef unsigned char T;
+    typedef IM::Vec3<T>   V3;
+    typedef IM::Color4<T> C4;
+    const LD                MX = 255;
+    std::atomic<long long>  done (0), c_grey (0), c_negh (0), c_wrap (0), c_sect[6], c_satmax (0);
+    for (auto& c : c_sect) c = 0;
+    auto s3 = [] (int a, int b, int c) { return std::string ("unsigned char ") + fmt (a) + " " + fmt (b) + " " + fmt (c); };
+    bool complete = parallel_chunks (1ull << 24, 1ull << 16, [&] (uint64_t lo, uint64_t hi, unsigned) {
+        long long grey = 0, negh = 0, wrap = 0, sect[6] = {0, 0, 0, 0, 0, 0}, satmax = 0;
+        for (uint64_t i = lo; i < hi; ++i)
+        {
+            const int a = (int) (i >> 16), b = (int) ((i >> 8) & 255), c = (int) (i & 255);
+            const T   al = (T) ((a * 7 + b * 13 + c * 29 + (a ^ b ^ c)) & 255);
+            const LD  fa = a / MX, fb = b / MX, fc = c / MX;
+            V3 v ((T) a, (T) b, (T) c);
+            C4 q ((T) a, (T) b, (T) c, al);
+            // ---- as rgb
+            V3  hv = IM::rgb2hsv (v);
+            Tri wh = model_rgb2hsv (fa, fb, fc);
+            if (a == b && b == c) ++grey;
+            else if (a >= b && a >= c && b < c) ++negh;
+            if (!(int_ok<T> (hv.x, wh.a) || wh.b == 0)) R ().fail ("rgb2hsv<unsigned char>.scaled.all-triples", s3 (a, b, c) + " hue", fmt (wh.a * MX), fmt ((int) hv.x));
+            if (!int_ok<T> (hv.y, wh.b)) R ().fail ("rgb2hsv<unsigned char>.scaled.all-triples", s3 (a, b, c) + " saturation", fmt (wh.b * MX), fmt ((int) hv.y));
+            if (!int_ok<T> (hv.z, wh.c)) R ().fail ("rgb2hsv<unsigned char>.scaled.all-triples", s3 (a, b, c) + " value", fmt (wh.c * MX), fmt ((int) hv.z));
+            C4 hc = IM::rgb2hsv (q);
+            if (hc.r != hv.x || hc.g != hv.y || hc.b != hv.z)
+                R ().fail ("rgb2hsv<Color4<unsigned char>>.vs-Vec3", s3 (a, b, c), fmt ((int) hv.x) + " " + fmt ((int) hv.y) + " " + fmt ((int) hv.z), fmt ((int) hc.r) + " " + fmt ((int) hc.g) + " " + fmt ((int) hc.b));
+            if (hc.a != al) R ().fail ("rgb2hsv<Color4<unsigned char>>.alpha", s3 (a, b, c) + " alpha " + fmt ((int) al), fmt ((int) al), fmt ((int) hc.a));
+            // ---- as hsv
+            V3  rv = IM::hsv2rgb (v);
+            Tri wr = model_hsv2rgb (fa, fb, fc);
+            if (a == 255) ++wrap; else sect[(a * 6) / 255]++;
+            if (b == 255) ++satmax;
+            if (!int_ok<T> (rv.x, wr.a) || !int_ok<T> (rv.y, wr.b) || !int_ok<T> (rv.z, wr.c))
+                R ().fail ("hsv2rgb<unsigned char>.scaled.all-triples", s3 (a, b, c), std::string (Msg () << wr.a * MX << " " << wr.b * MX << " " << wr.c * MX), fmt ((int) rv.x) + " " + fmt ((int) rv.y) + " " + fmt ((int) rv.z));
+            C4 rc = IM::hsv2rgb (q);
+            if (rc.r != rv.x || rc.g != rv.y || rc.b != rv.z)
+                R ().fail ("hsv2rgb<Color4<unsigned char>>.vs-Vec3", s3 (a, b, c), fmt ((int) rv.x) + " " + fmt ((int) rv.y) + " " + fmt ((int) rv.z), fmt ((int) rc.r) + " " + fmt ((int) rc.g) + " " + fmt ((int) rc.b));
+            if (rc.a != al) R ().fail ("hsv2rgb<Color4<unsigned char>>.alpha", s3 (a, b, c) + " alpha " + fmt ((int) al), fmt ((int) al), fmt ((int) rc.a));
+        }
+        done += (long long) (hi - lo); c_grey += grey; c_negh += negh; c_wrap += wrap; c_satmax += satmax;
+        for (int k = 0; k < 6; ++k) c_sect[k] += sect[k];
+    });
+    R ().cls ("color.uchar-all.grey-axis", c_grey.load ()); R ().cls ("color.uchar-all.negative-hue-wraps", c_negh.load ());
+    R ().cls ("color.uchar-all.hue-255-wraps", c_wrap.load ()); R ().cls ("color.uchar-all.saturation-255", c_satmax.load ());
+    for (int k = 0; k < 6; ++k) R ().cls ("color.uchar-all.sector" + std::to_string (k), c_sect[k].load ());
+    R ().add ("states", 2 * done.load ()); R ().add ("evaluations", 2 * done.load ()); R ().add ("transitions", 4 * done.load ());
+    if (complete) R ().stage_done ("all 2^24 unsigned-char triples as rgb and as hsv: Vec3 result == model scaled by 255 and truncated; Color4 result == Vec3 result, alpha unchanged");
+    else R ().stage_partial (std::to_string (done.load ()) + " of 2^24 triples");
+}
+
 // ---- packed colours ---------------------------------------------------------------------------------
 template <class T> void packed (const std::string& tn, long long& n, long long& tr, long long& c_bg)
 {
@@ -276,6 +408,11 @@ void c17_color_stages ()
     fp_color<float> ("float");
     int_color<unsigned char> ("unsigned char", true);
     int_color<short> ("short", false);
+    int_color4<unsigned char> ("unsigned char");
+    int_color4<short> ("short");
+    int_color4<unsigned short> ("unsigned short");
+    int_color4<int> ("int");
+    uchar_all ();
     if (R ().stage ("packed-roundtrip"))
     {
         long long n = 0, tr = 0, bg = 0;
